@@ -104,3 +104,45 @@
     proof {
         if can_read_len { lemma_vlen_scan(v0, i - self.start); } else { lemma_vlen_none(v0); }
     }
+@@ ref_decode spec
+    // the reference decoder IS the spec: Some((n, v)) exactly when the leading varint ends within 10 bytes, with its length and value
+    ensures match r {
+            Some(p) => vlen(s@) == Some(p.0 as int) && p.0 <= 10 && vval(s@) == p.1,
+            None => vlen(s@) is None || vlen(s@).unwrap() > 10,
+        },
+@@ ref_decode loop 1
+    invariant i <= 10, i <= s@.len(), mul == pow128(i as nat), val < mul,
+        vlen(s@) == (match vlen(s@.skip(i as int)) { Some(k) => Some(k + i), None => None::<int> }),
+        vval(s@) == val + mul * vval(s@.skip(i as int)),
+    decreases s@.len() - i
+@@ ref_decode entry
+    proof { assert(s@.skip(0) =~= s@); reveal_with_fuel(pow128, 2); }
+@@ ref_decode loop 1 body_entry
+    proof {
+        let t = s@.skip(i as int);
+        assert(t[0] == s@[i as int]);
+        assert(t.skip(1) =~= s@.skip(i + 1));
+        lemma_pow128_step(i as nat);
+        let b = s@[i as int];
+        assert(b & 0x80 == 0 ==> b < 128) by(bit_vector);
+        assert((b & 0x7f) < 128) by(bit_vector);
+        assert(mul * 128 == pow128((i + 1) as nat));
+        assert(mul <= pow128(9)) by { lemma_pow128_mono(i as nat, 9); }
+        assert(pow128(9) == 0x8000_0000_0000_0000) by { reveal_with_fuel(pow128, 10); }
+        // value decomposition
+        assert(mul * ((b & 0x7f) as nat + 128 * vval(t.skip(1))) == ((b & 0x7f) as nat) * mul + (mul * 128) * vval(t.skip(1))) by(nonlinear_arith);
+        assert(((b & 0x7f) as nat) * mul <= 127 * mul) by(nonlinear_arith) requires (b & 0x7f) < 128, mul > 0;
+        assert((b as nat) * mul <= 127 * mul || b >= 128) by(nonlinear_arith) requires mul > 0;
+        assert((b as nat) * mul == mul * (b as nat)) by(nonlinear_arith);
+        assert(128 * mul == mul * 128) by(nonlinear_arith);
+        if b & 0x80 == 0 {
+            assert(vlen(t) == Some(1int));
+            assert(vval(t) == b as nat);
+        } else {
+            assert(vval(t) == (b & 0x7f) as nat + 128 * vval(t.skip(1)));
+        }
+    }
+@@ ref_decode after_loop 1
+    proof {
+        if i < s@.len() && vlen(s@.skip(i as int)) is Some { lemma_vlen_bounds(s@.skip(i as int)); }
+    }
